@@ -823,8 +823,9 @@ func genAnchorDoc(g *Rng) string {
 }
 
 // mergesOpenAnchor: some merge key names (directly or in a list) the mapping it sits in or one of the
-// collections enclosing it.  DeAnchor does not notice (fix 46c2be4 covers aliases in value position only):
-// it returns nonsense or never returns, growing without bound — such documents are never run in-process.
+// collections enclosing it.  Before fix <COMMIT> DeAnchor did not notice (fix 46c2be4 covered aliases in value
+// position only): it returned nonsense or never returned, growing without bound — such documents are run in a
+// child process only, and must be refused.
 func mergesOpenAnchor(n *kyaml.Node, open map[*kyaml.Node]bool) bool {
 	if n == nil {
 		return false
@@ -971,30 +972,31 @@ func deanchorOne(r *Run, s string, fixed bool) {
 	if !fixed {
 		ctor = "D_deanchor_flat"
 	}
-	if mergesOpenAnchor(orig.YNode(), map[*kyaml.Node]bool{}) {
-		r.Count("deanchor", "skipped: merge of an open anchor")
-		r.Meta.Skipped++
-		return
-	}
 	in, ok := anodeTerm(orig.YNode())
 	if !ok {
 		r.Meta.Skipped++
 		return
 	}
 	desc := map[string]string{"kind": "deanchor", "s": s}
-	if aliasesOpenAnchor(orig.YNode(), map[*kyaml.Node]bool{}) {
-		// a node that contains itself: verdict from a child process (model: Err)
+	selfRef := aliasesOpenAnchor(orig.YNode(), map[*kyaml.Node]bool{})
+	selfMerge := mergesOpenAnchor(orig.YNode(), map[*kyaml.Node]bool{})
+	if selfRef || selfMerge {
+		// a node that contains itself, through an alias in value position (fix 46c2be4) or under a merge key
+		// (fix <COMMIT>): verdict from a child process — without the fixes DeAnchor overflows the stack / never
+		// returns and eats memory.  The model says Err whatever else the document holds.
 		fin, pout := deanchorProbe(s)
-		r.Count("deanchor", "self reference (child process)")
+		class, what := "C13/deanchor-self-reference-not-refused", "self reference (child process)"
+		if selfMerge {
+			class, what = "C13/deanchor-merge-of-open-anchor", "merge of an enclosing anchor (child process)"
+		}
+		r.Count("deanchor", what)
 		switch {
 		case !fin || !strings.Contains(pout, "PROBE err="):
-			r.Violation(OracleViolation{Law: "terminates", Class: "C13/deanchor-self-reference-not-refused", Detail: "DeAnchor does not return / dies on a node that contains itself: " + s + " " + trunc13(pout, 300), Replay: desc})
+			r.Violation(OracleViolation{Law: "terminates", Class: class, Detail: "DeAnchor does not return / dies on a node that contains itself: " + s + " " + trunc13(pout, 300), Replay: desc})
 		case strings.Contains(pout, "PROBE err=<nil>"):
-			r.Violation(OracleViolation{Law: "anchors_expanded", Class: "C13/deanchor-self-reference-not-refused", Detail: "DeAnchor accepted a node that contains itself: " + s, Replay: desc})
+			r.Violation(OracleViolation{Law: "anchors_expanded", Class: class, Detail: "DeAnchor accepted a node that contains itself: " + s, Replay: desc})
 		default:
-			if fixed || inDomain {
-				r.AddCase(fmt.Sprintf("(%s %s %s %s)", ctor, in, ClsErr, "(AAlias \"\")"), desc, false)
-			}
+			r.AddCase(fmt.Sprintf("(D_deanchor %s %s %s)", in, ClsErr, "(AAlias \"\")"), desc, false)
 		}
 		return
 	}
@@ -1054,7 +1056,7 @@ func deanchorCases(r *Run, rng *Rng, n int) {
 		fin, out := pr.fin, pr.out
 		r.AddEval("deanchor-probe", false)
 		if !fin || strings.Contains(out, "fatal error") || strings.Contains(out, "out of memory") {
-			r.Violation(OracleViolation{Law: "terminates", Class: "C13/deanchor-merge-of-open-anchor", Detail: "DeAnchor does not return (memory grows without bound) on a merge key naming an enclosing anchor: " + doc,
+			r.Violation(OracleViolation{Law: "terminates", Class: "C13/deanchor-merge-of-open-anchor", Detail: "REGRESSION of fix <COMMIT>: DeAnchor does not return (memory grows without bound) on a merge key naming an enclosing anchor: " + doc,
 				Replay: map[string]string{"kind": "deanchor-probe", "s": doc}})
 		} else if !strings.Contains(out, "PROBE err=") || strings.Contains(out, "PROBE err=<nil>") {
 			r.Violation(OracleViolation{Law: "anchors_expanded", Class: "C13/deanchor-merge-of-open-anchor", Detail: "DeAnchor accepted a merge key naming an enclosing anchor: " + out,
@@ -2295,9 +2297,7 @@ func replayC13(path string) (bool, string, error) {
 		fin, out := deanchorProbe(s)
 		detail = fmt.Sprintf("DeAnchor on %q in a child process: finished=%v %s", s, fin, trunc13(out, 400))
 		if kind == "deanchor" && fin {
-			if n, err := kyaml.Parse(s); err == nil && !mergesOpenAnchor(n.YNode(), map[*kyaml.Node]bool{}) {
-				deanchorOne(r, s, false)
-			}
+			deanchorOne(r, s, false) // cyclic documents go to a child process in there
 		}
 		if !fin {
 			r.Violation(OracleViolation{Law: "terminates", Class: "C13/deanchor-diverges", Detail: "DeAnchor did not return"})
